@@ -87,3 +87,36 @@ def c18_minimal_imap(stream, case, detail):
     """JointProbabilityDistribution.minimal_imap adds the union of all 'working' subsets (or nothing): the result is in general
     not an I-map.  The whole function is affected (its unit test pins the wrong graphs)."""
     return stream == "imap" and isinstance(detail, str) and detail.startswith("minimal_imap(")
+
+
+# ----------------------------------------------------------------------------- C17
+def _c17_parts(case):
+    k = case["k"]
+    intra, inter = case["intra"], case["inter"]
+    no_intra = any(not any(v in e for e in intra) for v in range(k))
+    cross = any(u != v for u, v in inter)
+    iface = {u for u, _ in inter}
+    ev_iface = any(v in iface for v, _, _ in case.get("ev", []))
+    times = {t for _, t in case.get("q", [])}
+    return no_intra, cross, ev_iface, len(times) > 1
+
+
+def c17_cross_slice_edge(stream, case, detail):
+    """inter-slice edge between two different variables (X_t -> Y_t+1): the interface algorithm equates 'has a child in the
+    next slice' with 'has a parent in the previous slice'; raises or returns wrong numbers"""
+    return stream == "query" and _c17_parts(case)[1]
+
+
+def c17_no_intra_edge(stream, case, detail):
+    """a slice variable without intra-slice edge: the start / 1.5-slice clique trees are disconnected"""
+    return stream == "query" and _c17_parts(case)[0]
+
+
+def c17_evidence_on_interface(stream, case, detail):
+    """evidence on a variable that has an outgoing inter-slice edge (an interface variable)"""
+    return stream == "query" and _c17_parts(case)[2]
+
+
+def c17_multi_slice_query(stream, case, detail):
+    """query variables in two or more different time slices (filtering and smoothing)"""
+    return stream == "query" and _c17_parts(case)[3]
